@@ -10,6 +10,7 @@
   both values).
 -/
 import Rpki.Proofs.ManifestCodec
+import Rpki.Proofs.RoaCodec
 import Rpki.Proofs.DerLemmas
 import Rpki.Props.C17
 import Rpki.Props.C02
@@ -115,5 +116,49 @@ theorem signed_attrs_roundtrip (ct md tc : Bytes) (tag : X509.TimeTag) (st : X50
     SigObj.encodeVerify l.flatten = some (tlv 0x31 l.flatten) :=
   ⟨C02.attrs_any_order true ct md tc tag st hct ht l hperm hlen,
    C02.encodeVerify_is_der l.flatten (by omega)⟩
+
+/-! ## ROA and ASPA eContent (`Model/Roa.lean`, tied to `RoaBuilder` / `AspaBuilder` / `Roa::decode` /
+`Aspa::decode` by the `roax`, `road`, `aspax`, `aspad` correspondence ops) -/
+
+/-- **ROA.** For every AS number and every two lists of profile-conforming addresses — any count,
+any order, duplicates, empty families — the eContent the builder writes is accepted by the decoder
+as the same captured values, whatever follows it, and iterating the captured lists yields exactly
+the addresses given to the builder. -/
+theorem roa_content_roundtrip (asId : Nat) (h : asId < 2 ^ 32) (a4 a6 : List Roa.Addr)
+    (h4 : ∀ a ∈ a4, a.WF ∧ Roa.addrOk 32 a = true) (h6 : ∀ a ∈ a6, a.WF ∧ Roa.addrOk 128 a = true)
+    (trailing : Bytes) :
+    Roa.decodeContent (Roa.encodeContent ⟨asId, Roa.encodeAddrs a4, Roa.encodeAddrs a6⟩ ++ trailing)
+      = some ⟨asId, Roa.encodeAddrs a4, Roa.encodeAddrs a6⟩ ∧
+    Roa.iter (Roa.encodeAddrs a4) = some a4 ∧ Roa.iter (Roa.encodeAddrs a6) = some a6 :=
+  ⟨Roa.decodeContent_encodeContent asId h a4 a6 h4 h6 trailing,
+   Roa.iter_encodeAddrs a4 (fun a ha => (h4 a ha).1), Roa.iter_encodeAddrs a6 (fun a ha => (h6 a ha).1)⟩
+
+/-- **ROA, decoded side.** Whatever octets the decoder accepts, both address lists iterate without
+failure (`RoaIpAddressIter::next` unwraps) and every address has its length and maxLength inside
+its family. -/
+theorem roa_decoded_iterates (b : Bytes) (c : Roa.Content) (h : Roa.decodeContent b = some c) :
+    ∃ l4 l6, Roa.iter c.v4 = some l4 ∧ Roa.iter c.v6 = some l6 ∧
+      (∀ a ∈ l4, Roa.addrOk 32 a = true) ∧ (∀ a ∈ l6, Roa.addrOk 128 a = true) := Roa.decodeContent_sound b c h
+
+/-- **ASPA.** Every customer and every non-empty, strictly ascending provider list without the
+customer and within the size limit round-trips, and the provider iterator yields the list. -/
+theorem aspa_content_roundtrip (maxLen cust : Nat) (ps : List Nat) (hc : cust < 2 ^ 32) (hps : ∀ p ∈ ps, p < 2 ^ 32)
+    (hne : ps ≠ []) (hinc : Roa.StrictInc ps) (hnot : cust ∉ ps) (hlen : ps.length ≤ maxLen) (trailing : Bytes) :
+    Roa.decodeAspa maxLen (Roa.encodeAspa cust (Roa.encodeProviders ps) ++ trailing)
+      = some ⟨cust, Roa.encodeProviders ps, ps.length⟩ ∧
+    Roa.iterProviders (Roa.encodeProviders ps) = some ps :=
+  ⟨Roa.decodeAspa_encodeAspa maxLen cust ps hc hps hne hinc hnot hlen trailing, Roa.iterProviders_encode ps hps⟩
+
+/-- **ASPA, decoded side.** Whatever the decoder accepts: the iterator cannot fail, `len()` is the
+number of providers it yields, at most the limit, at least one, strictly ascending, and the
+customer is not among them. -/
+theorem aspa_decoded_iterates (maxLen : Nat) (b : Bytes) (a : Roa.Aspa) (h : Roa.decodeAspa maxLen b = some a) :
+    ∃ ps, Roa.iterProviders a.providers = some ps ∧ ps.length = a.count ∧ a.count ≤ maxLen ∧ ps ≠ [] ∧
+      Roa.StrictInc ps ∧ a.customer ∉ ps := Roa.decodeAspa_sound maxLen b a h
+
+example : (⟨10 * 2 ^ 120, 8, some 24⟩ : Roa.Addr).WF ∧ Roa.addrOk 32 ⟨10 * 2 ^ 120, 8, some 24⟩ = true := by
+  refine ⟨⟨by decide, by decide, by decide, ?_⟩, by decide⟩
+  intro m hm; injection hm with hm; omega
+example : Roa.decodeAspa 16380 (Roa.encodeAspa 64500 (Roa.encodeProviders [1, 70000])) = some ⟨64500, Roa.encodeProviders [1, 70000], 2⟩ := by decide
 
 end Rpki.Props.C05
